@@ -23,7 +23,7 @@ TIERS = {
 }
 
 DIRS = ["", "sub", "sub/deep", "other", "data dir", "sub/ünï", "-opt"]
-NB_NAMES = ["a.ipynb", "b.ipynb", "c.ipynb", "x y.ipynb", "z.ipynb", "a (1).ipynb", "-lead.ipynb"]
+NB_NAMES = ["a.ipynb", "b.ipynb", "c.ipynb", "x y.ipynb", "z.ipynb", "a (1).ipynb", "-lead.ipynb", ":colon.ipynb"]
 OTHER_NAMES = ["notes.txt", "script.py", "d.ipynb.bak", "README.md", "e.json"]
 
 _real_popen = subprocess.Popen
@@ -120,7 +120,8 @@ def generate(rng, index, cfg):
         def rel(p):
             r = os.path.relpath(p, cwd or ".")
             # on a command line a name with a leading dash is spelled ./-name (it would be read as an option)
-            return "./" + r if (r.startswith("-") and q["api"] == "cli") else r
+            # (and a leading colon would be pathspec magic, on the command line and in the API alike)
+            return "./" + r if ((r.startswith("-") and q["api"] == "cli") or r.startswith(":")) else r
         if r < 0.45 or not cands:
             q["paths"] = None
         elif r < 0.65:
@@ -460,6 +461,11 @@ class Runner:
         self.stats[k] = self.stats.get(k, 0) + n
 
     def violate(self, oracle, sig, detail):
+        if getattr(self, "colon_entry", False) and oracle in ("G1", "G2", "G3"):
+            # known finding (known_findings.json): GitPython splits git's raw -z diff at NUL-colon, so a changed path
+            # that *starts* with a colon derails the parse of that entry and of all that follow.  One fixed signature,
+            # so that exactly this input is matched and any other violation is still reported on its own.
+            oracle, sig = "G1", {"what": "colon_leading_path"}
         self.log.ev("violation", oracle=oracle, sig=sig)
         self.violations.append(Violation(oracle, sig, detail))
 
@@ -630,6 +636,9 @@ class Runner:
         fshape = "none" if not paths else ("str" if isinstance(paths, str) else ("one" if len(paths) == 1 else "many"))
         sig_base = {"api": q["api"], "refs": ref_class, "from_subdir": from_sub}
         expected, err = _expected(w, q, cwd_abs)
+        self.colon_entry = bool(expected) and any(n.startswith(":") for _, a, b in expected for n in (a, b) if n)
+        if self.colon_entry:
+            self.stat("queries_with_colon_leading_path")
         self.stat("queries")
         self.stat("queries_%s" % ref_class)
         self.stat("queries_api_%s" % q["api"])
@@ -659,6 +668,9 @@ class Runner:
         git.cmd.Popen = spawn
         io.open = opener
         handled = []
+        named = [core.NamedImports(_real_popen, spawn), core.NamedImports(_real_io_open, opener)]
+        for n_ in named:
+            n_.__enter__()
         try:
             def to_ref(r):
                 return {"INDEX": gitfiles.GitRefIndex, "WORKING": gitfiles.GitRefWorkingTree}.get(r, r)
@@ -719,6 +731,8 @@ class Runner:
             outcome = "exc:%s" % type(e).__name__
         finally:
             subprocess.Popen, git.cmd.safer_popen, git.cmd.Popen, io.open = saved
+            for n_ in named:
+                n_.__exit__()
         post = os.getcwd()
         os.chdir(w.work)
         if spawn.fired:
